@@ -60,11 +60,26 @@ def check_ewma(chk, prog, sim):
             some = isinstance(v, Enum) and v.vname == "Ok" and isinstance(v.fields[0], Enum) and v.fields[0].vname == "Some"
             return (not some) or (isinstance(t, Enum) and t.vname == "Some")
         # ---- all transitions from a symbolic pre-state
-        for cat in ("E", "N", "S"):
+        import itertools
+        vty, tty = sim.adt_fields(sty)[vi][1], sim.adt_fields(sty)[ti][1]
+        oty = vty["args"][0]
+        dty = oty["args"][0]
+        dfs = sim.adt_fields(dty)
+        shapes_v = {
+            "Err": sim.mk_enum(vty, "Err", [Sym("eold", vty["args"][1])]),
+            "None": sim.mk_enum(vty, "Ok", [sim.mk_enum(oty, "None")]),
+            "Some": sim.mk_enum(vty, "Ok", [sim.mk_enum(oty, "Some", [Struct(dty, (Struct(dfs[0][1], (Sym("tprev", prim("i64")),)),
+                                                                                 sample_value(sim, prog, up, "prev") or Sym("vprev", dfs[1][1])))])]),
+        }
+        shapes_t = {"None": sim.mk_enum(tty, "None"), "Some": sim.mk_enum(tty, "Some", [Struct(tty["args"][0], (Sym("tupd", prim("i64")),))])}
+        for cat, (sv_name, st_name) in itertools.product(("E", "N", "S"), itertools.product(shapes_v, shapes_t)):
+            if sv_name == "Some" and st_name == "None":
+                continue   # violates the invariant: not a reachable state
             st = S.State()
-            sv = sim.expand(st, Sym("self", sty))
-            if is_quantity_impl(up):
-                pass
+            sv0 = sim.expand(st, Sym("self", sty))
+            fs0 = list(sv0.fields)
+            fs0[vi], fs0[ti] = shapes_v[sv_name], shapes_t[st_name]
+            sv = Struct(sty, fs0)
             oid = st.new_obj("self", sv)
             st.labels[oid] = "self"
             for leaf in N.update_with(sim, up, ug, st, oid, cat, "n", value=sample_value(sim, prog, up, "n")):
@@ -126,7 +141,7 @@ def check_ewma(chk, prog, sim):
                     if not (isinstance(post_t, Enum) and post_t.vname == "Some" and post_t.fields[0].fields[0] == Sym("tn")):
                         chk.violation("C12.value", key + ":update-time", "EWMA update time after a present sample is %r, expected the sample's time" % (post_t,), fn=up["pretty"])
                         ok = False
-                    bad = N.absolute_time_casts(post, N.time_atom_pred(["tn", "self.update_time"]))
+                    bad = N.absolute_time_casts(post, N.time_atom_pred(["tn", "tupd", "tprev"]))
                     if bad:
                         chk.violation("C12.shift", key + ":absolute-time", "EWMA converts an absolute timestamp to float: %r" % (bad[0],), fn=up["pretty"], file=loc(up["span"]))
                         ok = False
@@ -140,8 +155,7 @@ def check_ewma(chk, prog, sim):
     key = "ewma:variants-agree"
     chk.obligation(key, "generic and Quantity EWMA compute the same rational function")
     if len(exprs) == 2:
-        ren = {sy: A.sym(str(sy)[:-len(".value")]) for sy in exprs["Quantity"].free_symbols if str(sy).endswith(".value.value")}
-        exprs["Quantity"] = exprs["Quantity"].subs(ren, simultaneous=True)
+        pass
     if len(exprs) == 2 and A.equal(exprs["generic"], exprs["Quantity"]):
         chk.discharge(key)
     else:
